@@ -1,15 +1,29 @@
 #!/bin/bash
 # usage: run.sh <Cnn> [--tier quick|thorough] [--replay file]
 # Rebuilds the checker against /repo's current working tree, then runs it.
+# VERIF_EXTRA_OVERLAY=<json> merges extra `go build -overlay` replacements
+# (used only to try deliberate mutations of /repo files without touching /repo).
 export GOFLAGS=-mod=mod GOPROXY=off GOSUMDB=off GOTOOLCHAIN=local
 mkdir -p /verif/.build
-out=/verif/.build/vcheck.$$
+out=/verif/.build/vcheck-$1.$$
 ov=/verif/.build/overlay.$$.json
 # add-only overlay: files under /verif/overlay/<rel> appear as /repo/<rel>
-( cd /verif/overlay && printf '{"Replace":{' ; sep=
-  find . -type f -name '*.go' | sort | while read -r f; do f=${f#./}; printf '%s"/repo/%s":"/verif/overlay/%s"' "$sep" "$f" "$f"; sep=,; done
-  printf '}}\n' ) > "$ov"
+python3 - "$ov" <<'PY' || exit 2
+import json, os, sys
+rep = {}
+for root, _, files in os.walk('/verif/overlay'):
+    for f in files:
+        if f.endswith('.go'):
+            p = os.path.join(root, f)
+            rep['/repo/' + os.path.relpath(p, '/verif/overlay')] = p
+extra = os.environ.get('VERIF_EXTRA_OVERLAY')
+if extra:
+    rep.update(json.load(open(extra))['Replace'])
+json.dump({'Replace': rep}, open(sys.argv[1], 'w'))
+PY
 ( cd /verif/mc && go1.26 build -tags verif -overlay "$ov" -o "$out" ./cmd/vcheck ) || { rm -f "$ov"; echo "vcheck: build failed" >&2; exit 2; }
 rm -f "$ov"
-mv -f "$out" /verif/.build/vcheck-$1
-exec /verif/.build/vcheck-$1 "$@"
+"$out" "$@"
+rc=$?
+rm -f "$out"
+exit $rc
